@@ -501,6 +501,20 @@ O("C14.echsx", ["C14", "C12"], "h_C14x.c", "h_C14_echsx",
 O("C14.timeo_cb", ["C14"], "h_C14x.c", "h_C14_timeo_cb",
   "timeo_cb (the SIGALRM handler echsx installs): sends SIGXCPU to the running job, exactly once",
   ["timeo_cb", "block_sigs"], solver=["minisat", "kissat"], timeout={"quick": 600, "thorough": 1800}, replay=False, replay_note="system calls stubbed")
+EM = dict(unwind=6, solver=["minisat", "kissat", "cadical"], timeout={"quick": 900, "thorough": 1800}, replay=False, replay_note="number reading and printer stubbed",
+          cbmc_flags=["--malloc-may-fail", "--malloc-fail-null"],
+          assumptions=["strtol replaced by a stub returning an arbitrary long and consuming the whole value (libc number reading trusted)",
+                       "fdprnt.h replaced by a fixed-arity recorder of the X-ECHS-MAX-SIMUL / X-ECHS-UMASK lines (libc %d/%o formatting trusted)",
+                       "echs_instant_to_utc is the identity (instants without TZID)"])
+O("C12.max_simul.text", ["C12", "C05"], "h_C14m.c", "h_C12_max_simul_text",
+  "X-ECHS-MAX-SIMUL:N read by snarf_fld over any calendar-level default, made a task by make_task and written by send_task: the event's own N (0..62) is held and written as N; absent or out of range = the calendar default, else unlimited and not written - for every number and every default",
+  ["snarf_fld", "make_task", "send_task"], **EM)
+O("C05.umask.text", ["C05"], "h_C14m.c", "h_C05_umask_text",
+  "X-ECHS-UMASK read, made a task, written: the same value for 0..0777; absent or out of range = unset, not written - for every number",
+  ["snarf_fld", "make_task", "send_task"], **EM)
+O("C14.make_task.vtodo", ["C14"], "h_C14m.c", "h_C14_make_task_vtodo",
+  "make_task on an execution request (VTODO without DTSTART): a positive DURATION becomes the timeout unchanged, otherwise a DUE time becomes the deadline unchanged, otherwise no limit - for every duration and every DUE value",
+  ["make_task"], **EM)
 O("C09.make_enum", ["C09"], "h_C09e.c", "h_C09_make_enum",
   "make_enum (the time-of-day arrays every filler indexes): for every BYHOUR within 0..23, BYMINUTE within 0..59, BYSECOND within 0..60 and every DTSTART time it writes inside its three arrays, yields 1..24 / 1..60 / 1..61 entries, each a member of its BYxxx set (DTSTART's value when the set is empty), strictly increasing; the loops terminate",
   ["make_enum"], dfcc=True, loop_contracts=True, replace=["bui31_next", "bui63_next"],
